@@ -12,14 +12,9 @@ def _sh(s):
     return s.replace("ReMatcher::", "").replace("<Operation as OperationControl>::", "")
 
 
-def _rec(d, key, good, msg, loc):
-    d.setdefault(key, [True, msg, loc])
-    if not good:
-        d[key] = [False, msg, loc]
+from ..engine import rec as _rec, emit as _emit, checked  # noqa: E402
 
 
-def _emit(d):
-    return [ok(k) if g else bad(k, m, l) for k, (g, m, l) in sorted(d.items())]
 
 
 GUARD_C = "variant(try(Regex::check_matches_empty_string(a1)))=Continue"
@@ -135,7 +130,7 @@ def token_table(ctx):
         return [missing(N)]
     d = {}
     PE = "a1.prev_end as Some.0"
-    for p in ctx.walk(b).paths:
+    for p in checked(d, "token-next", b, ctx.walk(b).paths):
         gs, r = summarize(p)
         gs = [_sh(strip_ver(g)) for g in gs]
         r = _sh(strip_ver(r))
@@ -170,7 +165,7 @@ def analyze_table(ctx):
     PE = "a1.prev_end as Some.0"
     S = "Option::unwrap(get_paren_start(a1.matcher, 0))"
     E = "Option::unwrap(get_paren_end(a1.matcher, 0))"
-    for p in ctx.walk(b).paths:
+    for p in checked(d, "analyze-next", b, ctx.walk(b).paths):
         gs, r = summarize(p)
         gs = [_sh(strip_ver(g)) for g in gs]
         r = _sh(strip_ver(r))
